@@ -54,3 +54,14 @@ CLAIMED['C16'] = (
     NOTE_COMMON + 'The circuit-level theorem decode(encode c) ~ c is not proved yet (partial): that clause currently rests on the '
     'byte-exact correspondence plus the search oracle. Keys are byte strings in the model (CPython UTF-8 codec trusted).',
     'Lean 4 proof (bit/byte packing induction, length-prefixed parser inversion + prefix monotonicity) + regenerated codec tables + byte-exact correspondence')
+CLAIMED['C12'] = (
+    'DESIGN.md 5/C12',
+    'Theorems for every function (any n, m, any evaluation function): the enumeration used by all queries is exactly the set of input '
+    'vectors; is_constant(_at), is_output_equal_to_input(_negation), is_dependent_on_input_at / get_significant_inputs_of equal their '
+    'mathematical definitions; the two differently written is_monotone_at scans (Circuit vs PyFunction/TruthTable) are the same predicate '
+    'and equal the documented ordering notion, likewise is_monotone of Circuit and TruthTable. All three implementations (+ callables that '
+    'return their argument object or tuples) are compared with the model on all 12 queries, exhaustively for small shapes, and the '
+    'implementation answers are compared with brute-force definitions.',
+    NOTE_COMMON + 'Symmetry queries, negation search, PyFunction.is_monotone, TruthTable index-based shortcuts, define() and integer wrappers are '
+    'modelled and correspondence/search-checked but not yet proved (partial, listed in evidence).',
+    'Lean 4 proof (enumeration completeness, scan invariants) + exhaustive small-shape correspondence of three implementations')
